@@ -273,6 +273,36 @@ def c_vecinv(ctx, case):
                      f"metric diag{g}: {nm} = {to_ref(prod)} for v = {ref}")
 
 
+@check("C18.anyinv")
+def c_anyinv(ctx, case):
+    """inv() of an ARBITRARY multivector (several terms, pure grade or mixed): it may refuse
+    (NotImplementedError for what it does not recognise as a blade, ZeroDivisionError for null
+    ones) -- but whatever it returns is the inverse: inv(M)*M == M*inv(M) == 1."""
+    g, ref = case
+    sp = space_for(g)
+    M = mk(sp, ref)
+    ctx.case(None)
+    ctx.count("general_inverses")
+    for nm, f in (("inv(M)", lambda: M.inv()), ("1/M", lambda: 1 / M)):
+        try:
+            inv = f()
+        except (NotImplementedError, ZeroDivisionError):
+            ctx.count("general_inverse_refused")
+            continue
+        except Exception as ex:  # noqa: BLE001
+            ctx.fail("C18.anyinv", case, f"anyinv:raised:{type(ex).__name__}",
+                     f"{nm} for M={ref} (metric {g}) raised {type(ex).__name__}: {ex}")
+            continue
+        ctx.count("general_inverse_returned")
+        grades = sorted({len(k) for k in ref})
+        for tag, prod in ((nm + "*M", inv * M), ("M*" + nm, M * inv)):
+            if not same({(): 1}, prod):
+                ctx.fail("C18.anyinv", case, f"anyinv:{tag}:grades{grades}:dim{len(g)}",
+                         f"metric diag{g}: M = {ref}, {nm} = {to_ref(inv)}, but {tag} = "
+                         f"{to_ref(prod)}, not 1")
+                break
+
+
 def rand_mv(rng, n, symbolic=False, nterms=None, ints=False):
     blades = cl.all_blades(n)
     k = nterms or rng.randint(0, min(len(blades), 5))
@@ -431,12 +461,25 @@ def workload(ctx):
         coeffs = [rng.choice([F(0), F(1), F(-2), F(3), F(1, 2)]) for _ in range(n)]   # exact: int/int would round
         ctx.case(("vecinv", g, tuple(map(str, coeffs))), sum(1 for c in coeffs if c) >= 2, n=0)
         ctx.run("C18.vecinv", (g, coeffs))
+        for _ in range(3):
+            if rng.random() < 0.6:      # several blades of ONE grade
+                k = rng.randint(0, n)
+                bl = [b for b in cl.all_blades(n) if len(b) == k]
+                Mr = {b: rng.choice([F(1), F(-2), F(3), F(1, 2)])
+                      for b in rng.sample(bl, min(len(bl), rng.randint(2, 4)))}
+            else:
+                Mr = rand_mv(rng, n, False, nterms=min(2 ** n, rng.randint(2, 4)))
+            if Mr:
+                ctx.case(("anyinv", g, normal.typed_key(tuple(sorted(Mr.items())))), len(Mr) >= 2, n=0)
+                ctx.run("C18.anyinv", (g, Mr))
         A2, B2 = rand_mv(rng, n, False), rand_mv(rng, n, False)
         ctx.case(("eqhash", g, normal.typed_key((A2, B2))), True, n=0)
         ctx.run("C18.eqhash", (g, A2, B2))
     ctx.floor("blade_products", 50000)
     ctx.floor("triples", 20000)
     ctx.floor("inv_checked", 500)
+    ctx.floor("general_inverse_returned", 100)
+    ctx.floor("general_inverse_refused", 100)
     ctx.floor("inv_null_refused", 200)
     ctx.floor("bilinear_checks", 3000)
     ctx.floor("eq_pairs", 20000)
